@@ -327,7 +327,22 @@ def check(prog, run):
                        "%s accepts literal kinds %s, the specification says %s" % (sname, sorted(got) if got is not None else None, sorted(kinds)))
     tc = prog.get_func(SC, "_typed_coerce")
     inner = list(tc.nested.values())
-    okc = inner and _contains(inner[0].node, lambda x: isinstance(x, ast.If) and "not in types" in ast.unparse(x.test) and shapes.raises_unconditionally(x.body))
+    # path form: when the literal's class is not among the accepted ones every execution of the inner function raises
+    okc = False
+    if inner:
+        tparam = tc.node.args.vararg.arg if tc.node.args.vararg else None
+        seen_atoms = []
+
+        def decide(t, tparam=tparam):
+            if tparam and t.endswith(" in %s" % tparam) and ("type(" in t or "__class__" in t):
+                seen_atoms.append(t)
+                return False
+            return None
+        try:
+            _ev, exits = boolx.walk_under(inner[0].node, decide)
+        except ValueError as e:
+            raise AnalysisError("C07.I2: %s" % e)
+        okc = bool(seen_atoms) and bool(exits) and all(kind == "raise" for kind, st, env in exits)
     r.instance("_typed_coerce rejects other node kinds: %s" % bool(okc))
     if not okc:
         run.report(r, "%s:_typed_coerce:kind-check" % SC, tc.where(), "_typed_coerce no longer rejects literal kinds outside its list")
